@@ -144,6 +144,7 @@ def emit_instr(manifest, with_contract=True):
     b, _, _ = asm.block_after(r"\} else if \(size > 0\) \{", "emitProgramBin: instruction arm", start=e, unique=False)
     b = rewrite(b, [
         (r"directive->getValue\(\)", "value", 1),
+        (r"static_cast<(unsigned|int|uint32_t|int32_t|char|size_t)>\(", r"(\1)(", 0),
         (r"directive->getToken\(\)", "token", 1, 1),
         (r"outputFile\.put\(", "OUT_PUT(", 3),
         (r"hex::Instr::", "", 3),
